@@ -560,6 +560,53 @@ pub fn honest_swarm(seed: u64) -> Plan {
         }
         peer.script.push(step(When::At(h.range(300, t_close)), Act::Gain(x as u32)));
     }
+    // a partial seed that repeats its Unchoke while its only piece is in flight, with plenty of
+    // other pieces still missing (nothing else can be assigned to it at that moment)
+    if n >= 12 && Rng64::sub(seed, "honest-repeat-unchoke").chance(1, 10) {
+        let mut h = Rng64::sub(seed, "honest-repeat-unchoke-plan");
+        let x = h.usize_below(n);
+        for q in p.peers.iter_mut() {
+            q.has[x] = false;
+            q.script.retain(|s| s.act != Act::Gain(x as u32));
+        }
+        let mut q = base_peer(k + 1, n);
+        q.essential = true;
+        q.max_accepts = 1_000_000;
+        q.has = vec![false; n];
+        q.has[x] = true;
+        q.unchoke = Unchoke::OnInterested(h.range(1, 300));
+        q.answer.delay_min = h.range(200, 2_000);
+        q.answer.delay_max = q.answer.delay_min;
+        q.keepalive = Some(h.range(20_000, 110_000));
+        q.script.push(step(When::AfterRx { kind: "Request".into(), count: 1, plus: h.range(0, 150) }, Act::RepeatChokeState));
+        // chatty, so that the inactivity rule does not recycle the connection
+        q.script.push(step(When::At(0), Act::Send(Msg::Interested)));
+        let mut t = h.range(30_000, 100_000);
+        while t < 3_600_000 {
+            q.script.push(step(When::At(t), Act::Send(Msg::Interested)));
+            t += h.range(30_000, 110_000);
+        }
+        p.peers.push(q);
+        // the others are slow enough for ten pieces to be still missing
+        for q in p.peers.iter_mut().take(n_ess) {
+            q.answer.delay_min = q.answer.delay_min.max(300);
+            q.answer.delay_max = q.answer.delay_max.max(q.answer.delay_min);
+        }
+    }
+    // honest peers may repeat themselves: Choke while choking, Unchoke while not choking
+    for (j, peer) in p.peers.iter_mut().enumerate() {
+        let mut h = Rng64::sub(seed ^ (j as u64 + 1), "honest-redundant");
+        if h.chance(1, 8) {
+            for _ in 0..h.range(1, 3) {
+                let when = if h.chance(1, 2) {
+                    When::AfterRx { kind: "Request".into(), count: h.range(1, 6) as u32, plus: h.range(0, 3000) }
+                } else {
+                    When::At(h.range(100, 60_000))
+                };
+                peer.script.push(step(when, Act::RepeatChokeState));
+            }
+        }
+    }
     // network partitions that heal (any peer; an honest peer cannot help them)
     for peer in p.peers.iter_mut() {
         if r.chance(1, 8) {
